@@ -8,6 +8,7 @@ import (
 	"go/token"
 	"go/types"
 	"strings"
+	"sync"
 
 	"golang.org/x/tools/go/ssa"
 )
@@ -42,9 +43,48 @@ func ifGuards(d, b *ssa.BasicBlock) []guard {
 	for i, s := range d.Succs {
 		if len(s.Preds) == 1 && s.Dominates(b) {
 			out = append(out, guard{ifi.Cond, i == 0, ifi})
+			continue
+		}
+		// the successor is a join (a loop header that follows an early exit): the outcome still holds in b when the
+		// other outcome cannot lead to b at all except by coming back through d, where the test is made again
+		if b != d && d.Dominates(b) && !reachesAvoiding(d.Succs[1-i], b, d) && reachesAvoiding(s, b, d) {
+			out = append(out, guard{ifi.Cond, i == 0, ifi})
 		}
 	}
 	return out
+}
+
+var reachAvoidMemo = map[[2]*ssa.BasicBlock]map[*ssa.BasicBlock]bool{}
+var reachAvoidMu sync.Mutex
+
+// reachesAvoiding: is there a path from `from` to `to` that does not pass through `avoid`?
+func reachesAvoiding(from, to, avoid *ssa.BasicBlock) bool {
+	if from == avoid {
+		return false
+	}
+	key := [2]*ssa.BasicBlock{from, avoid}
+	reachAvoidMu.Lock()
+	defer reachAvoidMu.Unlock()
+	set, ok := reachAvoidMemo[key]
+	if !ok {
+		set = map[*ssa.BasicBlock]bool{from: true}
+		work := []*ssa.BasicBlock{from}
+		for len(work) > 0 {
+			x := work[len(work)-1]
+			work = work[:len(work)-1]
+			for _, s := range x.Succs {
+				if s != avoid && !set[s] {
+					set[s] = true
+					work = append(work, s)
+				}
+			}
+		}
+		if len(reachAvoidMemo) > 200000 {
+			reachAvoidMemo = map[[2]*ssa.BasicBlock]map[*ssa.BasicBlock]bool{}
+		}
+		reachAvoidMemo[key] = set
+	}
+	return set[to]
 }
 
 // edgeGuards returns the facts that hold when the edge pred->succ is taken.
@@ -442,6 +482,100 @@ func phiLeavesAt(v ssa.Value, b *ssa.BasicBlock) (leaves []phiLeaf, phis map[*ss
 	return
 }
 
+// eqGuard: the two operands of an equality the guard asserts. A call of a local function literal whose body is
+// `return a == b` is looked through: its parameters are the arguments of the call, the variables it captures are
+// the values their cells hold (when stored once).
+func eqGuard(g guard) (x, y ssa.Value, ok bool) {
+	g = normGuard(g)
+	if bo, isB := g.cond.(*ssa.BinOp); isB {
+		if (bo.Op == token.EQL && g.val) || (bo.Op == token.NEQ && !g.val) {
+			return bo.X, bo.Y, true
+		}
+		return nil, nil, false
+	}
+	call, isC := g.cond.(*ssa.Call)
+	if !isC || !g.val {
+		return nil, nil, false
+	}
+	fn := call.Call.StaticCallee()
+	if fn == nil || fn.Parent() == nil || len(fn.Blocks) == 0 {
+		return nil, nil, false
+	}
+	var ret *ssa.Return
+	for _, b := range fn.Blocks {
+		for _, in := range b.Instrs {
+			if rt, isR := in.(*ssa.Return); isR {
+				if ret != nil {
+					return nil, nil, false
+				}
+				ret = rt
+			}
+		}
+	}
+	if ret == nil || len(ret.Results) != 1 {
+		return nil, nil, false
+	}
+	bo, isB := ret.Results[0].(*ssa.BinOp)
+	if !isB || bo.Op != token.EQL {
+		return nil, nil, false
+	}
+	mc, _ := call.Call.Value.(*ssa.MakeClosure)
+	back := func(v ssa.Value) ssa.Value {
+		switch t := v.(type) {
+		case *ssa.Parameter:
+			for i, p := range fn.Params {
+				if p == t && i < len(call.Call.Args) {
+					return call.Call.Args[i]
+				}
+			}
+		case *ssa.UnOp:
+			if fv, isF := t.X.(*ssa.FreeVar); isF && t.Op == token.MUL && mc != nil {
+				for j, f := range fn.FreeVars {
+					if f == fv && j < len(mc.Bindings) {
+						if al, isA := mc.Bindings[j].(*ssa.Alloc); isA {
+							var stored ssa.Value
+							n := 0
+							for _, ref := range *al.Referrers() {
+								if st, isS := ref.(*ssa.Store); isS && st.Addr == ssa.Value(al) {
+									stored = st.Val
+									n++
+								}
+							}
+							if n == 1 {
+								return stored
+							}
+						}
+					}
+				}
+			}
+		}
+		return nil
+	}
+	x, y = back(bo.X), back(bo.Y)
+	return x, y, x != nil && y != nil
+}
+
+// phiLeavesUntil is phiLeaves that does not look into the values for which stop holds (they are leaves).
+func phiLeavesUntil(v ssa.Value, stop func(ssa.Value) bool) (leaves []phiLeaf) {
+	phis := map[*ssa.Phi]bool{}
+	var walk func(v ssa.Value, pred *ssa.BasicBlock, from *ssa.Phi)
+	walk = func(v ssa.Value, pred *ssa.BasicBlock, from *ssa.Phi) {
+		if p, ok := v.(*ssa.Phi); ok && !stop(v) {
+			if phis[p] {
+				return
+			}
+			phis[p] = true
+			for i, e := range p.Edges {
+				walk(e, p.Block().Preds[i], p)
+			}
+			return
+		}
+		leaves = append(leaves, phiLeaf{v, pred, from})
+	}
+	walk(v, nil, nil)
+	return
+}
+
 // callee returns the called *types.Func (static function, method, or interface method).
 func calleeObj(call ssa.CallInstruction) *types.Func {
 	cc := call.Common()
@@ -612,6 +746,67 @@ func loadOfField(v ssa.Value) (base ssa.Value, owner, field string, ok bool) {
 	return nil, "", "", false
 }
 
+// getterLoad: v is the result of a call of a method of the package that does nothing but hand out a field of its
+// receiver (possibly under the receiver's lock): `o.goType()` for `o.meta`. Returns the receiver and the field.
+func getterLoad(v ssa.Value) (base ssa.Value, owner, field string, ok bool) {
+	idx := 0
+	if ex, isEx := v.(*ssa.Extract); isEx {
+		idx = ex.Index
+		v = ex.Tuple
+	}
+	call, isCall := v.(*ssa.Call)
+	if !isCall {
+		return nil, "", "", false
+	}
+	fn := call.Call.StaticCallee()
+	if fn == nil || fn.Signature.Recv() == nil || len(fn.Params) == 0 || len(fn.Blocks) == 0 || len(call.Call.Args) == 0 {
+		return nil, "", "", false
+	}
+	n := 0
+	for _, b := range fn.Blocks {
+		for _, in := range b.Instrs {
+			rt, isR := in.(*ssa.Return)
+			if !isR {
+				continue
+			}
+			if idx >= len(rt.Results) {
+				return nil, "", "", false
+			}
+			res := rt.Results[idx]
+			// a result spilled because of a deferred unlock: the one value stored into the result cell
+			if u, isU := res.(*ssa.UnOp); isU && u.Op == token.MUL {
+				if al, isA := u.X.(*ssa.Alloc); isA {
+					var stored ssa.Value
+					k := 0
+					for _, ref := range *al.Referrers() {
+						if st, isS := ref.(*ssa.Store); isS && st.Addr == ssa.Value(al) {
+							stored = st.Val
+							k++
+						}
+					}
+					if k != 1 {
+						return nil, "", "", false
+					}
+					res = stored
+				}
+			}
+			b0, o, f, isL := loadOfField(res)
+			if !isL || b0 != ssa.Value(fn.Params[0]) {
+				return nil, "", "", false
+			}
+			if n > 0 && (o != owner || f != field) {
+				return nil, "", "", false
+			}
+			owner, field = o, f
+			n++
+		}
+	}
+	if n == 0 {
+		return nil, "", "", false
+	}
+	return call.Call.Args[0], owner, field, true
+}
+
 // provenNonNil: v is shown non-nil at block b (by dominating guards, through phis, or by construction).
 func provenNonNil(v ssa.Value, b *ssa.BasicBlock, depth int) bool {
 	if depth > 6 {
@@ -772,6 +967,90 @@ func caseTypes(b *ssa.BasicBlock, x ssa.Value) []types.Type {
 				continue
 			}
 			if f, ok := assertFactOf(guard{ifi.Cond, true, ifi}); ok && f.holds && (x == nil || sameVal(f.x, x)) {
+				ts = append(ts, f.t)
+			}
+		}
+		if len(ts) > 0 {
+			return ts
+		}
+	}
+	return nil
+}
+
+// wrapperAliases: the values of fn that are the parameter p itself after any number of wrappers were taken off:
+// p, a phi all of whose sources are aliases, and x.Base for an alias x asserted to a wrapper type (*NonNull).
+// A dispatcher that strips non-null wrappers in a loop before its type switch switches on such a value.
+func wrapperAliases(fn *ssa.Function, p *ssa.Parameter) map[ssa.Value]bool {
+	alias := map[ssa.Value]bool{p: true}
+	if p == nil {
+		return alias
+	}
+	// greatest fixed point: start from every phi and every load of a Base field, take away what does not hold
+	baseOf := func(v ssa.Value) (ssa.Value, bool) {
+		base, _, f, ok := loadOfField(v)
+		if !ok || f != "Base" {
+			return nil, false
+		}
+		x := base
+		if ex, ok := x.(*ssa.Extract); ok {
+			x = ex.Tuple
+		}
+		ta, ok := x.(*ssa.TypeAssert)
+		if !ok || derefNamed(ta.AssertedType) != "NonNull" {
+			return nil, false
+		}
+		return stripIface(ta.X), true
+	}
+	for _, b := range fn.Blocks {
+		for _, in := range b.Instrs {
+			switch t := in.(type) {
+			case *ssa.Phi:
+				if types.Identical(t.Type(), p.Type()) {
+					alias[t] = true
+				}
+			case *ssa.UnOp:
+				if _, ok := baseOf(t); ok {
+					alias[t] = true
+				}
+			}
+		}
+	}
+	for changed := true; changed; {
+		changed = false
+		for v := range alias {
+			switch t := v.(type) {
+			case *ssa.Phi:
+				for _, e := range t.Edges {
+					if !alias[stripIface(e)] {
+						delete(alias, v)
+						changed = true
+						break
+					}
+				}
+			case *ssa.UnOp:
+				if x, ok := baseOf(t); !ok || !alias[x] {
+					delete(alias, v)
+					changed = true
+				}
+			}
+		}
+	}
+	return alias
+}
+
+// caseTypesOf is caseTypes for a switch on any value that satisfies is.
+func caseTypesOf(b *ssa.BasicBlock, is func(ssa.Value) bool) []types.Type {
+	for d := b; d != nil; d = d.Idom() {
+		var ts []types.Type
+		for _, p := range d.Preds {
+			if len(p.Instrs) == 0 {
+				continue
+			}
+			ifi, ok := p.Instrs[len(p.Instrs)-1].(*ssa.If)
+			if !ok || p.Succs[0] != d {
+				continue
+			}
+			if f, ok := assertFactOf(guard{ifi.Cond, true, ifi}); ok && f.holds && is(stripIface(f.x)) {
 				ts = append(ts, f.t)
 			}
 		}
